@@ -346,7 +346,7 @@ def parse_atom(text):
     m = re.match(r"^((?:`[^`]*`|[^`<>=!])*?)(>=|<=|==|!=|>|<)(.*)$", text)
     if not m:
         neg = text.startswith("!")
-        name = text.lstrip("!").strip()
+        name = text.lstrip("!").strip().strip("`")
         return ("bool", (name, "spec"), not neg)
     l, op, r = m.group(1), m.group(2), m.group(3)
     return cmp_atom(op, _parse_sum(l), _parse_sum(r))
@@ -423,7 +423,8 @@ def edge_atoms(fv, bi):
             out.append((tg, ("variant", s, v)))
         oth = t.otherwise
         if b.term(oth).kind != "unreachable":
-            out.append((oth, None))
+            # `if let Variant(..) = x {..} else {..}`: the else edge means "not that variant"
+            out.append((oth, ("notvariant", s, vals[0]) if len(vals) == 1 else None))
         return out
     # integer switch (match on number): equality atoms
     for v, tg in t.arms:
